@@ -57,7 +57,7 @@ type Pool struct {
 	JobTimeout time.Duration // infrastructure protection only
 	Env        []string
 
-	Stop     func() bool // when it returns true, remaining jobs are answered with Err="skipped"
+	Stop func() bool // when it returns true, remaining jobs are answered with Err="skipped"
 
 	Died     int
 	TimedOut int
